@@ -9,6 +9,7 @@ package model
 import (
 	"encoding/json"
 	"fmt"
+	"reflect"
 	"sort"
 	"strconv"
 	"strings"
@@ -182,7 +183,8 @@ func EqualVal(a, b interface{}) bool {
 		_, ok := b.(dneT)
 		return ok
 	}
-	return false
+	// values of other (raw, un-normalised) Go types: equal only with the same type and value
+	return reflect.DeepEqual(a, b)
 }
 
 // ---- rendering (prefix)
